@@ -257,7 +257,7 @@ func refHistories(r *RunCtx) {
 		for site, n := range sim.siteCounts {
 			r.countN("probe.yield."+site, n)
 		}
-		r.state(hashString(string(sim.schedTrace)))
+		r.sched(sim)
 		total := 0
 		for t, tk := range sim.tasks {
 			if tk.panicV != nil {
